@@ -23,8 +23,11 @@ HasAccessibles.__init_subclass__ machinery, so that programs (C09) and configura
                    'chk:<p>:<max>' check_<p> raising RangeError above max            'doc:<text>' argument-less method with docstring
 
 The recording fake driver appends to `self.drvlog` (a plain list on the instance): ['write', p, repr(value)],
-['read', p], ['doPoll'].
+['read', p], ['doPoll'] and, with the raw values, to `self.drvraw`: ('write', p, value), ('read', p, None), ('doPoll', None, None).
 """
+import sys
+import types
+
 import frappy.core     # noqa  (must be imported before frappy.mixins)
 import frappy.mixins
 from frappy import datatypes as D
@@ -81,16 +84,19 @@ def make_impl(impl):
     if kind == 'w':
         def write(self, value, _p=rest):
             drvlog(self).append(['write', _p, repr(value)])
+            self.__dict__.setdefault('drvraw', []).append(('write', _p, value))
             return value
         return write
     if kind == 'r':
         def read(self, _p=rest):
             drvlog(self).append(['read', _p])
+            self.__dict__.setdefault('drvraw', []).append(('read', _p, None))
             return self.parameters[_p].value
         return read
     if kind == 'poll':
         def doPoll(self):
             drvlog(self).append(['doPoll'])
+            self.__dict__.setdefault('drvraw', []).append(('doPoll', None, None))
         return doPoll
     if kind == 'echo':
         def echo(self, arg):
@@ -165,7 +171,7 @@ def make_class(name, record, env):
 
 
 # ---------------------------------------------------------------------------------------------------------------
-# C10: a fixed family of module classes, importable by name ('vf.genmods.GA') so that config *files* can name them
+# C10: a fixed family of module classes, importable by name ('frappy_verif_g.GA') so that config *files* can name them
 
 G_RECORDS = {
     # plain module, parameters over several datatypes, with / without write and read methods
@@ -229,7 +235,15 @@ def G(name):
     return _G[name]
 
 
-def __getattr__(name):      # frappy.lib.get_class('vf.genmods.GA') -> getattr(module, 'GA')
+def __getattr__(name):
     if name in G_RECORDS:
         return G(name)
     raise AttributeError(name)
+
+
+# frappy.lib.get_class only imports modules whose name starts with 'frappy': an alias module object, so that
+# configurations (also config *files*) can name the classes as 'frappy_verif_g.GA'
+G_MODULE = 'frappy_verif_g'
+_alias = types.ModuleType(G_MODULE)
+_alias.__getattr__ = __getattr__
+sys.modules[G_MODULE] = _alias
